@@ -1,6 +1,7 @@
 package rules
 
 import (
+	"fmt"
 	"go/token"
 	"strings"
 
@@ -172,6 +173,90 @@ func runC34(p *core.Prog, r *core.Report) {
 			}
 			return "", false
 		}})
+		// R3b: the number of calls is pinned on every success path, and every call below the largest accepted count is looked at
+		isLen := func(_ *ssa.Function, v ssa.Value) bool {
+			c, ok := v.(*ssa.Call)
+			if !ok {
+				return false
+			}
+			b, ok := c.Call.Value.(*ssa.Builtin)
+			return ok && b.Name() == "len" && core.RootParam(fn, c.Call.Args[0]) == 0 && core.Unwrap(c.Call.Args[0]) == fn.Params[0]
+		}
+		var lg []core.Guard
+		var alts [][]string
+		for k := int64(1); k <= 6; k++ {
+			g := core.Guard{Name: fmt.Sprintf("call-count==%d", k), Comps: []core.Comp{{Result: -1, Kind: core.EqConst, Const: k}}, Value: isLen, Pure: true}
+			lg = append(lg, g)
+			alts = append(alts, []string{g.Name})
+		}
+		maxK, idx := int64(0), map[int64]bool{}
+		// upper-bound forms: len <= c / len < c (true edge), len > c / len >= c (false edge), and the commuted spellings
+		bound := func(v ssa.Value, wantTrueForm bool) bool {
+			bo, ok := v.(*ssa.BinOp)
+			if !ok {
+				return false
+			}
+			op, x, y := bo.Op, bo.X, bo.Y
+			if isLen(fn, y) { // commute to len OP const
+				x, y = y, x
+				switch op {
+				case token.LSS:
+					op = token.GTR
+				case token.LEQ:
+					op = token.GEQ
+				case token.GTR:
+					op = token.LSS
+				case token.GEQ:
+					op = token.LEQ
+				}
+			}
+			c, isC := intConstOf(y)
+			if !isLen(fn, x) || !isC {
+				return false
+			}
+			var k int64
+			switch op {
+			case token.LEQ, token.GTR:
+				k = c
+			case token.LSS, token.GEQ:
+				k = c - 1
+			default:
+				return false
+			}
+			if (op == token.LEQ || op == token.LSS) != wantTrueForm {
+				return false
+			}
+			if k > maxK && k <= 6 {
+				maxK = k
+			}
+			return k <= 6
+		}
+		lg = append(lg,
+			core.Guard{Name: "call-count-bounded(true-form)", Comps: []core.Comp{{Result: -1, Kind: core.IsTrue}}, Pure: true, Value: func(_ *ssa.Function, v ssa.Value) bool { return bound(v, true) }},
+			core.Guard{Name: "call-count-bounded(false-form)", Comps: []core.Comp{{Result: -1, Kind: core.IsFalse}}, Pure: true, Value: func(_ *ssa.Function, v ssa.Value) bool { return bound(v, false) }})
+		alts = append(alts, []string{"call-count-bounded(true-form)"}, []string{"call-count-bounded(false-form)"})
+		core.CheckSuccessFn(p, r3, fn, core.SuccessRule{ResultIdx: -1, MinReturns: 1, Guards: lg, Derived: []core.Derived{{Name: "call-count-pinned", Alts: alts}}, Need: []string{"call-count-pinned"}})
+		for _, b := range fn.Blocks {
+			for _, in := range b.Instrs {
+				switch x := in.(type) {
+				case *ssa.BinOp:
+					if x.Op == token.EQL && isLen(fn, x.X) {
+						if k, ok := intConstOf(x.Y); ok && k > maxK {
+							maxK = k
+						}
+					}
+				case *ssa.IndexAddr:
+					if core.ParamIndex(fn, x.X) == 0 {
+						if k, ok := intConstOf(x.Index); ok {
+							idx[k] = true
+						}
+					}
+				}
+			}
+		}
+		for i := int64(0); i < maxK; i++ {
+			r3.Check(idx[i], fmt.Sprintf("%s#call[%d]!examined", name, i), p.Pos(fn.Pos()), "every accepted call is looked at", fmt.Sprintf("the parser accepts %d calls but never looks at call %d", maxK, i))
+		}
 	}
 	// ---- R4
 	r4 := r.Rule("C34.R4", "every NotarySignAndInvokeTX in the inner ring processors is dominated by the alphabet test and the processor's own check (table)", 11)
@@ -183,8 +268,8 @@ func runC34(p *core.Prog, r *core.Report) {
 	}
 	const rpT = "(*pkg/innerring/processors/reputation.Processor)"
 	table := map[string]siteRule{
-		npT + ".processAddNode":    {reason: "guards checked by C38.R1"},
-		npT + ".processUpdatePeer": {guards: []core.Guard{alpha}, reason: "pass-through approval: the Netmap contract itself authorises a node's state change by the node's own witness; the inner ring only adds the alphabet witness"},
+		npT + ".processAddNode":      {reason: "guards checked by C38.R1"},
+		npT + ".processUpdatePeer":   {guards: []core.Guard{alpha}, reason: "pass-through approval: the Netmap contract itself authorises a node's state change by the node's own witness; the inner ring only adds the alphabet witness"},
 		cpT + ".processAnnounceLoad": {guards: []core.Guard{alpha, core.G("load-report-checked", core.ErrNil, cpT+".checkAnnounceLoad")}},
 		rpT + ".approvePutReputation": {via: rpT + ".processPut", guards: []core.Guard{alpha,
 			{Name: "trust-signature-valid", Match: func(s core.Site) bool { return strings.HasSuffix(s.Name, ".VerifySignature") }, Comps: []core.Comp{{Result: -1, Kind: core.IsTrue}}},
